@@ -111,6 +111,9 @@ def main(argv):
     for th in cfg.get("theorems", []):
         rep = th()
         units.append(rep)
+        if rep.error:
+            undecided.append("%s: %s" % (rep.name, rep.error))
+            continue
         for o, r in zip(rep.obligations, rep.results):
             all_obls.append((rep, o, r))
 
